@@ -76,7 +76,13 @@ ASSUMPTIONS = [
 ]
 BUDGET = {"quick": 60, "thorough": 540}
 FLOORS = {
-    "quick": {"evaluations": 1, "distinct_nontrivial": 1},
+    "quick": {"evaluations": 2300, "distinct_nontrivial": 1900,
+              "counters": {"results_checked": 2000, "partitions_observed": 12000, "npartitions_checked": 1100,
+                           "npartitions_more": 500, "npartitions_fewer": 500, "npartitions_above_row_count": 200,
+                           "divisions_checked": 550, "divisions_force": 270, "divisions_outer_changed": 240,
+                           "expected_error": 130, "divisions_monitor_runs": 800, "compute_views": 330,
+                           "source_unknown_divisions": 750, "source_with_empty_partitions": 170},
+              "sets": {"target_feature": 12}, "max_skipped_fraction": 0.15},
     "thorough": {"evaluations": 1, "distinct_nontrivial": 1},
 }
 EXHAUSTIVE_SPACE = {
@@ -154,7 +160,7 @@ def cases(tier, seed):
                 yield {"space": "exhaustive", "e": "dups", "sdiv": sd, "known": True,
                        "t": {"k": "divisions", "d": td, "force": False}}
     # ---- random
-    k = 3200 if tier == "quick" else 60000
+    k = 3200 if tier == "quick" else 40000
     for _ in range(k):
         nrows = rng.choice((0, 1, 2, 3, 5, 6, 8)) if rng.random() < 0.25 else rng.randint(4, 40)
         kind = rng.choice(INDEX_KINDS)
